@@ -254,6 +254,7 @@ func (o c13Op) String() string {
 }
 
 type c13Seq struct {
+	Tag     string // "" (generated mix), "blk" / "hug" (bulk-transaction shape)
 	Index   int
 	Hostile bool
 	Ops     []c13Op
@@ -262,6 +263,9 @@ type c13Seq struct {
 }
 
 func (s *c13Seq) id() string {
+	if s.Tag != "" {
+		return fmt.Sprintf("%s%d", s.Tag, s.Index)
+	}
 	p := "reg"
 	if s.Hostile {
 		p = "hos"
@@ -546,6 +550,131 @@ func c13Gen(seed int64, index int, nops int) *c13Seq {
 			continue
 		}
 		plain(false)
+	}
+	return s
+}
+
+// c13GenBulk builds the "bulk transaction" shape: pre-populate n keys, read all
+// of them (and a few absent ones) so that a read cache holds them, then ONE
+// read-write transaction that first overwrites / deletes / creates a few keys
+// and afterwards touches many other distinct keys, commit, read everything
+// back. n is a few dozen (above the 4-entry private cache a transaction gets
+// from a 256-entry read cache), or, with huge, above the 2048 entries a
+// transaction gets from a read cache of default size.
+func c13GenBulk(seed int64, index int, huge bool) *c13Seq {
+	stream, tag := uint64(13_500_000), "blk"
+	if huge {
+		stream, tag = 13_900_000, "hug"
+	}
+	rng := kit.NewRand(seed, stream+uint64(index))
+	s := &c13Seq{Tag: tag, Index: index}
+	n := 12 + rng.Intn(30)
+	if huge {
+		n = 2150 + rng.Intn(150)
+	}
+	dirs := []string{""}
+	for i, f := 0, rng.Intn(5); i < f; i++ {
+		d := kit.Pick(rng, []string{"a", "b-", "é", "_a", "0", "t.temp", "A"}) + "/"
+		if rng.Chance(1, 3) {
+			d += kit.Pick(rng, []string{"ab", "-", "~"}) + "/"
+		}
+		dirs = append(dirs, d)
+	}
+	var present, absent []string
+	for i := 0; i < n; i++ {
+		present = append(present, fmt.Sprintf("%sk%04d", dirs[i%len(dirs)], i))
+	}
+	for i := 0; i < 4; i++ {
+		absent = append(absent, fmt.Sprintf("%snew%d", kit.Pick(rng, dirs), i))
+	}
+	s.Keys = append(append([]string{}, present...), absent...)
+	dset := map[string]bool{}
+	for _, d := range dirs {
+		for i := 0; i < len(d); i++ {
+			if d[i] == '/' && !dset[d[:i+1]] {
+				dset[d[:i+1]] = true
+				s.Dirs = append(s.Dirs, d[:i+1])
+			}
+		}
+	}
+	s.Dirs = append([]string{""}, s.Dirs...)
+	id := 0
+	emit := func(o c13Op) {
+		id++
+		o.ID = id
+		s.Ops = append(s.Ops, o)
+	}
+	val := func() []byte { return rng.Bytes(1 + rng.Intn(24)) }
+	readAll := func() {
+		for _, i := range rng.Perm(len(s.Keys)) {
+			emit(c13Op{Kind: "get", Key: s.Keys[i]})
+		}
+	}
+	for _, k := range present {
+		emit(c13Op{Kind: "put", Key: k, Val: val()})
+	}
+	readAll()
+	rounds := 1
+	if !huge {
+		rounds += rng.Intn(2)
+	}
+	for round := 0; round < rounds; round++ {
+		emit(c13Op{Kind: "begin"})
+		early := map[string]bool{}
+		for i, e := 0, 1+rng.Intn(4); i < e; i++ {
+			switch rng.Intn(4) {
+			case 0:
+				k := kit.Pick(rng, absent)
+				early[k] = true
+				emit(c13Op{Kind: "put", Key: k, Val: val()})
+			case 1:
+				k := kit.Pick(rng, present)
+				early[k] = true
+				emit(c13Op{Kind: "del", Key: k})
+			default:
+				k := kit.Pick(rng, present)
+				early[k] = true
+				emit(c13Op{Kind: "put", Key: k, Val: val()})
+			}
+		}
+		touches := 8 + rng.Intn(24)
+		if touches > n-6 {
+			touches = n - 6
+		}
+		if huge {
+			touches = 2100 + rng.Intn(40)
+		}
+		for _, i := range rng.Perm(len(present)) {
+			if touches == 0 {
+				break
+			}
+			k := present[i]
+			if early[k] {
+				continue
+			}
+			touches--
+			switch r := rng.Intn(12); {
+			case r < 8 || huge && r < 11:
+				emit(c13Op{Kind: "get", Key: k})
+			case r < 10:
+				emit(c13Op{Kind: "put", Key: k, Val: val()})
+			case r < 11:
+				emit(c13Op{Kind: "del", Key: k})
+			default:
+				emit(c13Op{Kind: "put", Key: k, Val: val()})
+			}
+		}
+		if !huge && rng.Chance(1, 3) {
+			d := kit.Pick(rng, s.Dirs)
+			emit(c13Op{Kind: "page", Prefix: d, After: kit.Pick(rng, []string{"", "k0003", "a/"}), Limit: kit.Pick(rng, []int{0, 5, -1})})
+		}
+		if huge || rng.Chance(7, 8) {
+			emit(c13Op{Kind: "commit"})
+		} else {
+			emit(c13Op{Kind: "rollback"})
+		}
+		readAll()
+		emit(c13Op{Kind: "list", Prefix: kit.Pick(rng, s.Dirs)})
 	}
 	return s
 }
